@@ -3,4 +3,5 @@ pub mod c03;
 pub mod c04;
 pub mod edit;
 pub mod c06;
+pub mod c07;
 pub mod c09;
